@@ -216,6 +216,8 @@ mod pipeline_trace;
 mod recursion;
 #[cfg(test)]
 mod test_arithmetic;
+#[cfg(inputlayer_verif)]
+pub mod verif_hooks; // scheduling points for the schedule controller (verification builds only)
 
 // Re-export public types
 pub use catalog::Catalog;
